@@ -1,5 +1,4 @@
 /-
-<<<<<<< HEAD
   "The primary key of the model value" on Update (C02 round 4).
 
   Transcription of the ORDER of effects in callbacks/update.go `ConvertToAssignments` for `db.Model(&value).Update…(…)`
@@ -61,59 +60,5 @@ def updApplyUpdate (conds sets : List (String × Int)) (tbl : List UpdRec) : Lis
 def updateThroughModel (keyFirst : Bool) (pks : List String) (m : UpdRec) (sets : List (String × Int)) (tbl : List UpdRec) : List UpdRec :=
   let o := updConvertToAssignments keyFirst pks m sets
   updApplyUpdate o.conds o.set tbl
-=======
-  C09 (round 4) — which primary keys an UPDATE turns into WHERE conditions (callbacks/update.go ConvertToAssignments),
-  as a function of the code that exists (regenerated facts, extract/gen_c09_upd.go → Gen/UpdateKeyFacts.lean).
-
-      if !updatingValue.CanAddr() || stmt.Dest != stmt.Model {        -- the updating value is NOT the Model itself
-        switch stmt.ReflectValue.Kind() { case Slice: … WHERE key IN (Model slice's keys)
-                                          case Struct: … WHERE key = (Model value's key) } }            -- "model block"
-      …  default: switch updatingValue.Kind() { case reflect.Struct: for each column:
-           if !field.PrimaryKey || !updatingValue.CanAddr() || stmt.Dest != stmt.Model { … SET … }
-           else { … WHERE key = (updating value's key) } }                                              -- "value block"
-
-  `same` below = the updating value is addressable AND is the statement's Model (`db.Updates(&rec)`, `db.Save`): only then
-  is its key a condition; the key inside a SEPARATE value (`db.Model(&T{}).Updates(T{ID: 7, …})`) goes to SET.
--/
-import GormModel.Model.Where
-import GormModel.Gen.UpdateKeyFacts
-namespace Gorm
-
-/-- which key blocks ConvertToAssignments contains, and what guards the value block -/
-structure UpdateKeyCode where
-  modelBlockStruct : Bool     -- WHERE from stmt.ReflectValue's key, struct case, under `!CanAddr || Dest != Model`
-  modelBlockSlice : Bool      -- the same for a slice Model
-  valueBlock : Bool           -- WHERE from updatingValue's key exists
-  valueBlockNeedsSame : Bool  -- … and is reached only when `updatingValue.CanAddr() && stmt.Dest == stmt.Model`
-deriving DecidableEq, Repr
-
-def notSameGuard : String := "!updatingValue.CanAddr() || stmt.Dest != stmt.Model"
-
-/-- the code of the tree under verification, read off the regenerated facts -/
-def updateKeyCodeOfFacts : UpdateKeyCode :=
-  { modelBlockStruct := Gen.updateWhereSites.any (fun s =>
-      s.source == "reflect" && s.expr == "Eq" && s.guards.head? == some notSameGuard &&
-      s.guards.contains "switch stmt.ReflectValue.Kind() case reflect.Struct"),
-    modelBlockSlice := Gen.updateWhereSites.any (fun s =>
-      s.source == "reflect" && s.expr == "IN" && s.guards.head? == some notSameGuard &&
-      s.guards.contains "switch stmt.ReflectValue.Kind() case reflect.Slice, reflect.Array"),
-    valueBlock := Gen.updateWhereSites.any (fun s => s.source == "updating"),
-    valueBlockNeedsSame := Gen.updateValueKeyInElse &&
-      Gen.updateValueKeyGuard.contains "!updatingValue.CanAddr()" && Gen.updateValueKeyGuard.contains "stmt.Dest != stmt.Model" &&
-      -- every site reading the updating value's key is that ELSE
-      (Gen.updateWhereSites.filter (fun s => s.source == "updating")).length == 1 }
-
-/-- the key conditions an update adds for a struct Model / struct value -/
-def updateKeysOf (code : UpdateKeyCode) (modelKey valueKey : List Atom) (same : Bool) : List Atom :=
-  (if code.modelBlockStruct && !same then modelKey else []) ++
-  (if code.valueBlock && (same || !code.valueBlockNeedsSame) then valueKey else [])
-
-/-- the guard's decision for an update whose key conditions come from `updateKeysOf code` (mirrors `finWhere … .update`,
-    Model/Where.lean, incl. the rule that a SET entry left on the statement skips ConvertToAssignments) -/
-def finRejectedUpd (ce : Bool) (code : UpdateKeyCode) (cfg : StmtCfg) (s : StmtState) (valueKey : List Atom) (same : Bool) : Bool :=
-  let ks := (updateKeysOf code cfg.modelKey valueKey same).map Ex.atom
-  let w1 := modifyBy cfg s.unscoped s.w
-  missingWhere ce cfg.allowGlobal (if ks.isEmpty || s.keys.contains "SET" then w1 else addWhere w1 ks)
->>>>>>> r4C09
 
 end Gorm
